@@ -935,6 +935,44 @@ impl StrengthReducedU64 {
     }
 }
 
+/// Verification hooks (cargo feature `verif_hooks`, off by default): thin
+/// wrappers exposing private kernels of this module to an out-of-tree harness.
+#[cfg(feature = "verif_hooks")]
+pub mod verif_hooks {
+    use super::StrengthReducedU64;
+    pub use super::distributor_channels::{
+        DistributionReceiver, DistributionSender, RecvFuture, SendError, SendFuture,
+        channels, partition_aware_channels,
+    };
+
+    /// `StrengthReducedU64::new(divisor)` as `(is_power_of_two, mask_or_divisor, reciprocal)`.
+    pub fn strength_reduced_new(divisor: u64) -> (bool, u64, u128) {
+        match StrengthReducedU64::new(divisor) {
+            StrengthReducedU64::PowerOfTwo { mask } => (true, mask, 0),
+            StrengthReducedU64::Reciprocal {
+                divisor,
+                reciprocal,
+            } => (false, divisor, reciprocal),
+        }
+    }
+
+    /// `StrengthReducedU64::quotient(value, reciprocal)`.
+    pub fn strength_reduced_quotient(value: u64, reciprocal: u128) -> u64 {
+        StrengthReducedU64::quotient(value, reciprocal)
+    }
+
+    /// `StrengthReducedU64::new(divisor).partition_indices(hashes, ..)` with
+    /// `divisor` output vectors.
+    pub fn strength_reduced_partition_indices(
+        divisor: u64,
+        hashes: &[u64],
+    ) -> Vec<Vec<u32>> {
+        let mut indices = vec![vec![]; divisor as usize];
+        StrengthReducedU64::new(divisor).partition_indices(hashes, &mut indices);
+        indices
+    }
+}
+
 impl BatchPartitioner {
     /// Create a new [`BatchPartitioner`] for hash-based repartitioning.
     ///
